@@ -812,6 +812,9 @@ def uncompress_dict(source: str) -> str:
         pos = vyxal.encoding.compression.find(temp_scc)
         if pos < len(vyxal.dictionary.small_dictionary):
             ret += vyxal.dictionary.small_dictionary[pos]
+    if escaped:
+        # the literal ended right after a backslash: keep it
+        ret += "\\"
 
     return ret
 
